@@ -338,6 +338,22 @@ pub fn sampler_z(mu: f64, sigma: f64, sigma_min: f64, rng: &mut dyn RngCore) -> 
     crate::samplerz::sampler_z(mu, sigma, sigma_min, rng)
 }
 
+/// `ffsampling` on a tree that is a single leaf [sigma_leaf, 0]: the two integers it samples for the centres (t0, t1)
+pub fn ffsampling_leaf(n: usize, t0: f64, t1: f64, sigma_leaf: f64, rng: &mut dyn RngCore) -> (f64, f64) {
+    let tree = crate::ffsampling::LdlTree::Leaf([Complex64::new(sigma_leaf, 0.0), Complex64::new(0.0, 0.0)]);
+    let params = if n == 512 {
+        crate::falcon::FalconVariant::Falcon512.parameters()
+    } else {
+        crate::falcon::FalconVariant::Falcon1024.parameters()
+    };
+    let t = (
+        Polynomial::new(vec![Complex64::new(t0, 0.0)]),
+        Polynomial::new(vec![Complex64::new(t1, 0.0)]),
+    );
+    let z = crate::ffsampling::ffsampling(&t, &tree, &params, rng);
+    (z.0.coefficients[0].re, z.1.coefficients[0].re)
+}
+
 pub fn gen_poly(n: usize, rng: &mut dyn RngCore) -> Vec<i16> {
     crate::math::verif::gen_poly(n, rng).coefficients
 }
